@@ -51,7 +51,8 @@ Proof. unfold qmin. destruct (qleb a b) eqn:E; [apply qleb_le in E; exact E | lr
 
 (* ---- sums ---- *)
 Lemma qsum_nil : qsum [] = 0. Proof. reflexivity. Qed.
-Lemma qsum_cons a l : qsum (a :: l) = a + qsum l. Proof. reflexivity. Qed.
+Lemma qsum_cons a l : qsum (a :: l) == a + qsum l.
+Proof. unfold qsum. cbn [fold_right]. apply Qred_correct. Qed.
 Lemma qsum_app a b : qsum (a ++ b) == qsum a + qsum b.
 Proof. induction a as [|x a IH]; cbn [app]; rewrite ?qsum_cons, ?qsum_nil; [lra|]. rewrite IH. lra. Qed.
 
